@@ -110,7 +110,7 @@ func (x *Run) intrinsic(fr *Frame, st *State, fn *ssa.Function, args []Val, site
 		st.held[key] = 1
 		return single(st, unit), true
 	case "Closed":
-		return single(st, Val{T: sel(x.arr(st, x.chClosedArr()), args[0].T), S: SBool}), true
+		return single(st, Val{T: sel(x.arr(st, x.chClosedArr(args[0].Ty)), args[0].T), S: SBool}), true
 	case "ChanCap":
 		return single(st, Val{T: sel(x.arr(st, x.chCapArr()), args[0].T), S: SInt, Ty: types.Typ[types.Int]}), true
 	case "Any":
